@@ -326,6 +326,8 @@ type runner struct {
 	onStandby *effect
 	inflight  []*request
 	baseG     int
+	nreq      int
+	front     http.Handler // the entry point: a breaker that never trips, in front of cb
 }
 
 const waitLimit = 10 * time.Second
@@ -334,7 +336,8 @@ func nowNS() int64 { return clock.Now().UTC().UnixNano() }
 
 func (r *runner) arrive(abandoned bool) (pass bool, err error) {
 	rq := &request{start: nowNS(), release: make(chan int, 1), done: make(chan struct{}, 1)}
-	req := httptest.NewRequest(http.MethodGet, "http://example.com/", nil)
+	r.nreq++
+	req := hlib.Vary(httptest.NewRequest(http.MethodGet, "http://example.com/", nil), r.nreq)
 	ctx := context.WithValue(req.Context(), reqKey{}, rq)
 	if abandoned {
 		var cancel func()
@@ -344,7 +347,7 @@ func (r *runner) arrive(abandoned bool) (pass bool, err error) {
 	req = req.WithContext(ctx)
 	w := httptest.NewRecorder()
 	go func() {
-		r.cb.ServeHTTP(w, req)
+		r.front.ServeHTTP(w, req)
 		rq.done <- struct{}{}
 	}()
 	select {
@@ -376,7 +379,7 @@ func (r *runner) burst(k int) (passed int64, err error) {
 		w := httptest.NewRecorder()
 		go func() {
 			<-start
-			r.cb.ServeHTTP(w, req)
+			r.front.ServeHTTP(w, req)
 			if atomic.LoadInt32(&rq.fell) == 1 {
 				fell <- struct{}{}
 			}
@@ -523,14 +526,34 @@ func (c *cbComp) Run(h *hlib.History) ([]hlib.Mon, bool) {
 		atomic.StoreInt32(&rq.fell, 1)
 		w.WriteHeader(http.StatusServiceUnavailable)
 	})
-	cb, err := cbreaker.New(next, exprStr,
+	cbOpts := []cbreaker.Option{
 		cbreaker.FallbackDuration(time.Duration(fb)), cbreaker.RecoveryDuration(time.Duration(recD)),
 		cbreaker.CheckPeriod(time.Duration(cp)), cbreaker.OnTripped(r.onTripped), cbreaker.OnStandby(r.onStandby),
-		cbreaker.Fallback(fallback))
+		cbreaker.Fallback(fallback)}
+	if (fb+cp)%2 != 0 { // the order in which options are given means nothing
+		for i, j := 0, len(cbOpts)-1; i < j; i, j = i+1, j-1 {
+			cbOpts[i], cbOpts[j] = cbOpts[j], cbOpts[i]
+		}
+		hlib.Count("breakers_with_reversed_option_order", 1)
+	}
+	// a second, unrelated breaker in the same process, tripped for an hour: instances share nothing
+	if decoy, derr := cbreaker.New(http.HandlerFunc(func(w http.ResponseWriter, _ *http.Request) { w.WriteHeader(502) }),
+		"NetworkErrorRatio() > 0.5", cbreaker.FallbackDuration(time.Hour), cbreaker.CheckPeriod(time.Nanosecond)); derr == nil {
+		for k := 0; k < 3; k++ {
+			decoy.ServeHTTP(httptest.NewRecorder(), httptest.NewRequest(http.MethodGet, "http://example.com/", nil))
+		}
+	}
+	cb, err := cbreaker.New(next, exprStr, cbOpts...)
 	if err != nil {
 		return []hlib.Mon{{Prop: "C18", Step: -1, Msg: fmt.Sprintf("expression %q rejected: %v", exprStr, err)}}, true
 	}
 	r.cb = cb
+	// ... behind another breaker that never trips (no ratio exceeds 2): the outer instance changes nothing for the inner one
+	front, err := cbreaker.New(cb, "NetworkErrorRatio() > 2.0", cbreaker.CheckPeriod(time.Nanosecond))
+	if err != nil {
+		return nil, false
+	}
+	r.front = front
 	// the oracle for LatencyAtQuantileMS: the same library, fed the same records at the same frozen instants
 	shadow, err := memmetrics.NewRTMetrics()
 	if err != nil {
